@@ -491,6 +491,41 @@ fn scoped_family(g: &mut G, ctx: &RunCtx) -> RunReport {
     }
 }
 
+/// A name with many addresses, the first eight of them (in the order they are tried) unresponsive: the ninth
+/// is tried eight race intervals after the first, whatever the number of attempts still pending.
+fn long_list_plan(g: &mut G) -> Plan {
+    g.probe("family:nine-or-more-addresses");
+    let n6 = g.range(4, 7) as usize;
+    let n4 = g.range(5, 7) as usize;
+    let mut addrs: Vec<Addr> = Vec::new();
+    // resolver order: the families in blocks, either first
+    let v6: Vec<IpAddr> = (1..=n6).map(|i| format!("2001:db8::{}", i).parse().unwrap()).collect();
+    let v4: Vec<IpAddr> = (1..=n4).map(|i| format!("192.0.2.{}", i).parse().unwrap()).collect();
+    let six_first = g.chance(1, 2);
+    for ip in if six_first { v6.iter().chain(v4.iter()) } else { v4.iter().chain(v6.iter()) } {
+        addrs.push(Addr { ip: *ip, beh: ConnectBehaviour::Blackhole });
+    }
+    let mut p = Plan { addrs, ct_ms: *g.pick(&[30_000u64, 5_000]), ct_max: false, t_ms: *g.pick(&[None, None, Some(10_000u64), Some(120_000)]), resolvable: true, dns_ms: 0, https: false };
+    // behaviours by position in the order of the attempts
+    let order: Vec<IpAddr> = expected_order(&p).iter().map(|a| a.ip).collect();
+    let first_answer = g.range(8, order.len() as u64 - 1) as usize;
+    for (i, ip) in order.iter().enumerate() {
+        let beh = if i < first_answer {
+            ConnectBehaviour::Blackhole
+        } else if i == first_answer {
+            ConnectBehaviour::Accept { latency_ns: *g.pick(&[0u64, 1, 50, 150]) * NS_PER_MS }
+        } else {
+            match g.below(3) {
+                0 => ConnectBehaviour::Accept { latency_ns: 0 },
+                1 => ConnectBehaviour::Refuse { latency_ns: 0 },
+                _ => ConnectBehaviour::Blackhole,
+            }
+        };
+        p.addrs.iter_mut().find(|a| a.ip == *ip).unwrap().beh = beh;
+    }
+    p
+}
+
 pub fn scenario(g: &mut G, ctx: &RunCtx) -> RunReport {
     let p = gen(g);
     // drawn after the plan: recorded tapes keep their meaning
@@ -500,6 +535,7 @@ pub fn scenario(g: &mut G, ctx: &RunCtx) -> RunReport {
     if g.chance(1, 14) {
         return scoped_family(g, ctx);
     }
+    let p = if g.chance(1, 16) { long_list_plan(g) } else { p };
     let sim = Sim::new(ctx.sim_config());
     if p.resolvable {
         sim.add_host(HOST, p.addrs.iter().map(|a| a.ip).collect());
